@@ -94,13 +94,31 @@ impl TextDocument {
         Ok(())
     }
 
+    /// Converts an LSP position into a byte index into `content`.
+    ///
+    /// `position.character` counts UTF-16 code units (the LSP default position encoding, no
+    /// other one is negotiated), while `content` is UTF-8. Positions that do not denote a
+    /// character boundary of the document map to an index past the end of the content, so
+    /// that `validate_range` rejects them: a position beyond the end of the text, or one
+    /// that points between the two halves of a surrogate pair.
     fn position_to_index(&self, position: Position) -> usize {
         let line_offset = self
             .line_offsets
             .get(position.line as usize)
             .copied()
             .unwrap_or(self.content.len());
-        line_offset + position.character as usize
+        let mut remaining = position.character as usize;
+        for (index, c) in self.content[line_offset..].char_indices() {
+            if remaining == 0 {
+                return line_offset + index;
+            }
+            match remaining.checked_sub(c.len_utf16()) {
+                Some(rest) => remaining = rest,
+                // Inside a surrogate pair.
+                None => return usize::MAX,
+            }
+        }
+        self.content.len().saturating_add(remaining)
     }
 
     fn calculate_line_offsets(text: &str) -> Vec<usize> {
